@@ -58,11 +58,17 @@ def primitive_of(node):
 
 
 class Eval:
-    def __init__(self, circuit, assign, m, override=None):
-        """assign: dict s_index -> value (missing: zero); override: dict line_index -> value (C16 injection)"""
+    def __init__(self, circuit, assign, m, override=None, passthrough_outputs=False):
+        """assign: dict s_index -> value (missing: zero); override: dict line_index -> value (C16 injection);
+        passthrough_outputs: ports that have an input line are pure observation points (used for cell implementation
+        circuits, where an output port read internally is a wire, not a stimulus position)"""
         self.c, self.m, self.assign, self.override = circuit, m, assign, override or {}
         self.snodes = s_nodes(circuit)
         self.sidx = {id(n): i for i, n in enumerate(self.snodes)}
+        if passthrough_outputs:
+            nio = len(circuit.io_nodes)
+            self.sidx = {k: i for k, i in self.sidx.items()
+                         if i >= nio or not (len(self.snodes[i].ins) > 0 and self.snodes[i].ins[0] is not None)}
         self.memo = {}
 
     def line(self, l):
